@@ -103,6 +103,27 @@ def _kernels(S, FS, Mesh, Interpolants):
               tm.and_(jac > 0, tm.eq(jac * jac, tv[0] * tv[0] + tv[1] * tv[1]), tm.eq(t[0] * jac, tv[0]), tm.eq(t[1] * jac, tv[1]),
                       tm.eq(n[0] * jac, tv[1]), tm.eq(n[1] * jac, -tv[0])))
         S.canary('Mesh.compute_edge_vectors', nondeg)
+        # Surface.integrate_function_on_edge (linear meshes): length x sum of weights x integrand at the mapped points with the outward unit normal
+        import jax.numpy as jnp
+        from optimism import Surface
+        S.function('Surface.integrate_function_on_edge', Surface.integrate_function_on_edge, 'J')
+        X3 = J.sym_array('X', (3, 2))
+        xi, wq = J.sym_array('xi', (2,)), J.sym_array('wq', (2,))
+        for side in range(3):
+            a_, b_ = X3[side], X3[(side + 1) % 3]
+            tvs = [b_[0] - a_[0], b_[1] - a_[1]]
+            L = tm.var('edgeLength')
+            meshS = lambda X_: type('M', (), {'conns': jnp.array([[0, 1, 2]]), 'coords': X_})()
+            val = J.scalar(J.symbolic_call(lambda X_, xi_, w_: Surface.integrate_function_on_edge((xi_, w_), jnp.array([0, side]), meshS(X_),
+                                                                                             lambda x_, n_: J.uf('flux', x_[0], x_[1], n_[0], n_[1])), X3, xi, wq))
+            want = tm.ZERO
+            for q_ in range(2):
+                xq = [a_[c] + xi[q_] * tvs[c] for c in range(2)]
+                want = want + L * wq[q_] * tm.app('flux', (xq[0], xq[1], tvs[1] / L, -tvs[0] / L))
+            hyL = [L > 0, tm.eq(L * L, tvs[0] * tvs[0] + tvs[1] * tvs[1])]
+            lens = [t_ for t_ in tm.apps_of(val) if t_.data == 'sqrt']
+            S.add('Surface.integrate_function_on_edge/is_length_times_weighted_integrand_with_outward_unit_normal[side %d]' % side,
+                  hyL + [tm.eq(t_, L) for t_ in lens if False], tm.eq(val, want), timeout=60000)
     finally:
         FS.solve = old_solve
 
